@@ -10,7 +10,9 @@ From V Require Import base.Cal gen.RrTables rr.RRBase rr.RRNorm rr.RRMasks rr.RR
   rr.RRMonthlyThm rr.RRWeeklyThm rr.RRSubHourRun rr.RRSubMinRun rr.RRSubSecRun rr.RRSubFamily rr.RRSubProps
   rr.RRSubClose rr.RRSubCloseGen rr.RRSubCloseFam rr.RRSubCloseGen2 rr.RRSubStopFam rr.RRSubSpecCoh rr.RRSubSame
   rr.RRSubAdvance rr.RRSetposThm rr.RRCoarseRun rr.RRMonthlyFullThm rr.RRMonthlyNthThm rr.RRYearlyFullThm
-  rr.RRDailyFullThm rr.RRWeeklySetposThm rr.RRYearlyMonthNthThm rr.RRSortedThm rr.RRCoarseTop rr.RRNoRaise rr.RRStripThm rr.RRStripSubThm rr.RRValidThm rr.RRCompleteThm.
+  rr.RRDailyFullThm rr.RRWeeklySetposThm rr.RRYearlyMonthNthThm rr.RRSortedThm rr.RRCoarseTop rr.RRNoRaise rr.RRStripThm rr.RRStripSubThm rr.RRValidThm rr.RRCompleteThm
+  rr.RRSubSpBase rr.RRSubSpPass rr.RRSubSpFam rr.RRSubSpSame rr.RRSubSpAll rr.RRSubSorted rr.RRSubSpOrder rr.RRSubSpTerm
+  rr.RRAllFreqTop.
 Import ListNotations.
 Open Scope Z_scope.
 
@@ -1103,3 +1105,106 @@ Theorem C01_rrule_complete_headline_partial : forall r rl limit n n',
   fst (spec_iter r limit n') = fst (iterate rl limit n).
 Proof. exact rrule_complete_coarse_all. Qed.
 Print Assumptions C01_rrule_complete_headline_partial.
+
+(* ==== SUB-DAILY HEADLINE (builder rset, on top of C01_poslist_is_select_pos and the strip lemmas): for EVERY rule of
+   the specification's domain with FREQ = HOURLY / MINUTELY / SECONDLY, BYWEEKNO within the RFC range and without
+   BYEASTER -- BYSETPOS and numeric BYDAY prefixes included -- model and specification enumerate the same stream,
+   position by position (both prefix directions).  sfam_sa r fr := spec_wf r, r_freq r = fr, BYWEEKNO in range,
+   r_byeaster r = None.  Equality at EQUAL fuel is false for sub-daily FREQ (`limit` per period vs per day). *)
+Theorem C01_rrule_iter_correct_subdaily_headline_partial : forall r rl fr, normalize r = Ok rl -> sfam_sa r fr ->
+  fr = HOURLY \/ fr = MINUTELY \/ fr = SECONDLY ->
+  forall i x,
+    (exists limit n, nth_error (fst (iterate rl limit n)) i = Some x) <->
+    (exists L d, nth_error (fst (spec_iter r L d)) i = Some x).
+Proof. exact subdaily_all_iter_correct. Qed.
+Print Assumptions C01_rrule_iter_correct_subdaily_headline_partial.
+
+Theorem C01_subdaily_all_prefix_of_spec : forall r rl fr, normalize r = Ok rl -> sfam_sa r fr ->
+  fr = HOURLY \/ fr = MINUTELY \/ fr = SECONDLY ->
+  forall limit n, exists L d rest, fst (spec_iter r L d) = fst (iterate rl limit n) ++ rest.
+Proof. exact subdaily_all_prefix_of_spec. Qed.
+Print Assumptions C01_subdaily_all_prefix_of_spec.
+
+Theorem C01_subdaily_all_spec_prefix_of_iterate : forall r rl fr, normalize r = Ok rl -> sfam_sa r fr ->
+  fr = HOURLY \/ fr = MINUTELY \/ fr = SECONDLY ->
+  forall L d, exists limit n rest, fst (iterate rl limit n) = fst (spec_iter r L d) ++ rest.
+Proof. exact subdaily_all_spec_prefix_of_iterate. Qed.
+Print Assumptions C01_subdaily_all_spec_prefix_of_iterate.
+
+(* the sub-daily counterparts of the coarse corollaries (builder rset) *)
+Theorem C01_subdaily_strictly_increasing_headline_partial : forall r rl fr, normalize r = Ok rl -> sfam_sa r fr ->
+  fr = HOURLY \/ fr = MINUTELY \/ fr = SECONDLY ->
+  forall limit n, isorted (fst (iterate rl limit n)).
+Proof. exact subdaily_all_strictly_increasing. Qed.
+Print Assumptions C01_subdaily_strictly_increasing_headline_partial.
+
+Theorem C01_subdaily_nodup_headline_partial : forall r rl fr, normalize r = Ok rl -> sfam_sa r fr ->
+  fr = HOURLY \/ fr = MINUTELY \/ fr = SECONDLY ->
+  forall limit n, NoDup (fst (iterate rl limit n)).
+Proof. exact subdaily_all_nodup. Qed.
+Print Assumptions C01_subdaily_nodup_headline_partial.
+
+(* whenever the sub-daily generator stops by itself (COUNT, UNTIL, year 9999, or the ValueError / TypeError of the
+   sub-daily advance, which exists in the real code) it has yielded the specification's complete stream *)
+Theorem C01_subdaily_self_stop_is_end_partial : forall r rl fr, normalize r = Ok rl -> sfam_sa r fr ->
+  fr = HOURLY \/ fr = MINUTELY \/ fr = SECONDLY ->
+  forall limit n, snd (iterate rl limit n) <> TOutOfFuel -> snd (iterate rl limit n) <> TLimit ->
+  forall L d, exists rest, fst (iterate rl limit n) = fst (spec_iter r L d) ++ rest.
+Proof. exact subdaily_all_self_stop_is_end. Qed.
+Print Assumptions C01_subdaily_self_stop_is_end_partial.
+
+Theorem C01_subdaily_raise_is_end_partial : forall r rl fr, normalize r = Ok rl -> sfam_sa r fr ->
+  fr = HOURLY \/ fr = MINUTELY \/ fr = SECONDLY ->
+  forall limit n e, snd (iterate rl limit n) = TRaised e ->
+  forall L d, is_prefix (fst (spec_iter r L d)) (fst (iterate rl limit n)).
+Proof. exact subdaily_all_raise_is_end. Qed.
+Print Assumptions C01_subdaily_raise_is_end_partial.
+
+(* the specification's sequence is strictly increasing for EVERY rule of its domain (all seven frequencies) *)
+Theorem C01_spec_iter_strictly_increasing_all : forall r, spec_wf r = true ->
+  forall limit n, isorted (fst (spec_iter r limit n)).
+Proof. exact spec_iter_sorted_all. Qed.
+Print Assumptions C01_spec_iter_strictly_increasing_all.
+
+(* ==== C01_gen_* blocks (translators: gen_rr_init / gen_rr_masks / gen_rr_iter) go BELOW this line; rr adds nothing after it ==== *)
+
+(* ---- gen_rr_init (owner: rcache; harness/gen_rr_init.py -> coq/gen/RRInitGen.v, proofs in
+   coq/rcache/RRInitGenThm.v, RRModDistGenThm.v).  rrule.__init__ is executed symbolically from /repo's AST on
+   every run (one definition per top-level statement), __construct_byset and __mod_distance are translated;
+   the generated constructor equals RRNorm.normalize (and the _original_rule recording equals
+   RReplace.record) for ALL argument records `a` (RRInitBase.args: BY-arguments as None / bare int /
+   sequence, byweekday members as int / weekday object, wkst as None / int / weekday; RRInitBase.erase maps
+   them to RRNorm.raw).  A source change breaks only the theorems below. *)
+From V Require rcache.RReplace rcache.RRInitBase gen.RRInitGen rcache.RRInitGenThm rcache.RRModDistGenThm.
+
+Theorem C01_gen_init_is_model : forall a,
+  RRInitGen.gen_init a =
+  (do ru <- normalize (RRInitBase.erase a); Ok (ru, RReplace.record (RRInitBase.erase a))).
+Proof. exact RRInitGenThm.gen_init_is_model. Qed.
+Print Assumptions C01_gen_init_is_model.
+
+Theorem C01_gen_init_error : forall a e,
+  RRInitGen.gen_init a = Err e <-> normalize (RRInitBase.erase a) = Err e.
+Proof. exact RRInitGenThm.gen_init_error. Qed.
+Print Assumptions C01_gen_init_error.
+
+Theorem C01_gen_construct_byset : forall itv start l base,
+  RRInitGen.gen_construct_byset itv start (RRInitBase.IMany l) base = construct_byset itv start l base.
+Proof. exact RRInitGenThm.gen_construct_byset_eq. Qed.
+Print Assumptions C01_gen_construct_byset.
+
+Theorem C01_gen_mod_distance : forall rl value byxxx base,
+  match RRInitGen.gen_mod_distance (interval rl) value byxxx base with
+  | Some p => Ok p
+  | None => Err EType
+  end = mod_distance rl value byxxx base.
+Proof. exact RRModDistGenThm.gen_mod_distance_is_model. Qed.
+Print Assumptions C01_gen_mod_distance.
+
+(* non-vacuity: HOURLY, interval 2 from 09:00, byhour (4,1,3,2,3), bysetpos -1, byweekday (1, TH), wkst SU *)
+Theorem C01_gen_init_example :
+  exists ru o, RRInitGen.gen_init RRInitGenThm.args0 = Ok (ru, o) /\ byhour ru = Some [1; 3] /\ wkst ru = 6 /\
+               byweekday ru = Some [1; 3] /\ RReplace.o_byhour o = RReplace.RVal [1; 2; 3; 4] /\
+               RReplace.o_bysetpos o = RReplace.RVal [-1].
+Proof. exact RRInitGenThm.gen_init_example. Qed.
+Print Assumptions C01_gen_init_example.
